@@ -13,7 +13,7 @@ from .base import gen_program, viol
 ID = "C13"
 LEVEL = "exploration"
 TIERS = {"quick": {"cases": 2000, "wall": 100, "min_nontrivial": 1200},
-         "thorough": {"cases": 50000, "wall": 1800, "min_nontrivial": 30000}}
+         "thorough": {"cases": 50000, "wall": 1800, "min_nontrivial": 12000}}
 RULE = ("generator -> valid program P (one statement per line); a run of whole statements [a,b) - any boundaries, also "
         "inside constructs - is moved to a file and replaced by an INCLUDE line; optionally a nested include inside it "
         "and a second, disjoint one; include lines in mixed case with either quote kind, file names with upper case, "
